@@ -18,11 +18,12 @@
    only (anything may follow them).
 
    Model of the code that exists: the UPER skipper is the closed form of
-   uper_sot_suck + the padding test of uper_open_type_get_simple ([Ext.uper_open_skip
-   false]: contents of 3n octets, or the single octet 00), the OER skipper advances
-   over the length determinant only ([Ext.oer_open_skip false]); both are recorded
-   findings of C01/C03, and both are SAFE (inside the buffer), which is what is
-   stated here. *)
+   uper_sot_suck under uper_open_type_get_simple ([Ext.uper_open_skip]: the whole
+   contents, whatever its size), the OER skipper advances over the length determinant
+   and that many octets ([Ext.oer_open_skip], [oer_open_type_skip_m]).  (Both used to
+   stop short — contents of 3n octets only / the determinant only, findings of C01/C03 —
+   and were repaired in the fixer round, notes/fixes/D/03 and 04; the model followed.)
+   What is stated here is that they stay inside the buffer. *)
 From Coq Require Import ZArith List Lia Bool ZifyBool.
 From A1 Require Import Base.Bytes Leaf.BerTL Leaf.BerTLProofs
   Rt.Types Rt.Comb Rt.Der Rt.Uper Rt.Oer Rt.Ext Rt.Safety.
@@ -386,18 +387,17 @@ Proof.
   rewrite app_length in El. lia.
 Qed.
 
-Theorem uper_open_skip_in_bounds (std : bool) bs r :
-  uper_open_skip std bs = Some r -> exists a, bs = a ++ r /\ (8 <= length a)%nat.
+Theorem uper_open_skip_in_bounds bs r :
+  uper_open_skip bs = Some r -> exists a, bs = a ++ r /\ (8 <= length a)%nat.
 Proof.
   unfold uper_open_skip.
   destruct (get_open_bytes bs) as [[buf r0]|] eqn:E; [|discriminate].
-  destruct (uper_skippable std buf); [|discriminate].
   intros H. injection H as <-. eapply get_open_bytes_spec. exact E.
 Qed.
 
 (* ------------------------------------------------------------------ OER *)
 
-(* oer_fetch_length with its three answers kept apart (oer_open_type_skip returns it) *)
+(* oer_fetch_length with its three answers kept apart *)
 Definition oer_skip (bs : list Z) : fres :=
   match bs with
   | [] => FMore
@@ -443,8 +443,24 @@ Proof.
   rewrite skipn_app, skipn_all, Nat.sub_diag. reflexivity.
 Qed.
 
-Theorem oer_open_skip_in_bounds (std : bool) bs r :
-  oer_open_skip std bs = Some r -> exists a, bs = a ++ r /\ (1 <= length a)%nat.
+(* oer_open_type_skip: the size of the length determinant plus the length; "more" when the buffer does not hold
+   that many octets (what the leaf driver's oskip command reports) *)
+Definition oer_open_type_skip_m (bs : list Z) : fres :=
+  match oer_skip bs with
+  | FOk v n => if v <=? zlen (skipn n bs) then FOk v (n + Z.to_nat v) else FMore
+  | x => x
+  end.
+
+Theorem oer_open_type_skip_in_bounds bs v n : oer_open_type_skip_m bs = FOk v n -> (1 <= n <= length bs)%nat.
+Proof.
+  unfold oer_open_type_skip_m. destruct (oer_skip bs) as [v0 n0| |] eqn:E; try discriminate.
+  apply oer_skip_in_bounds in E.
+  destruct (v0 <=? zlen (skipn n0 bs)) eqn:Ev; [|discriminate].
+  intros H. injection H as _ <-. unfold zlen in Ev. rewrite skipn_length in Ev. lia.
+Qed.
+
+Theorem oer_open_skip_in_bounds bs r :
+  oer_open_skip bs = Some r -> exists a, bs = a ++ r /\ (1 <= length a)%nat.
 Proof.
   unfold oer_open_skip.
   destruct (oer_fetch_length bs) as [[n r0]|] eqn:E; [|discriminate].
@@ -452,12 +468,10 @@ Proof.
   apply oer_skip_in_bounds in Hk.
   assert (H0 : exists a, bs = a ++ skipn k bs /\ (1 <= length a)%nat).
   { exists (firstn k bs). rewrite firstn_skipn, firstn_length. split; [reflexivity|lia]. }
-  destruct std.
-  - destruct (take n (skipn k bs)) as [[x r']|] eqn:Et; [|discriminate].
-    intros H. injection H as <-. apply take_spec in Et. destruct Et as [Hx _].
-    destruct H0 as (a & Ha & Hl). exists (a ++ x). rewrite <- app_assoc, <- Hx.
-    split; [exact Ha|]. rewrite app_length. lia.
-  - intros H. injection H as <-. exact H0.
+  destruct (take n (skipn k bs)) as [[x r']|] eqn:Et; [|discriminate].
+  intros H. injection H as <-. apply take_spec in Et. destruct Et as [Hx _].
+  destruct H0 as (a & Ha & Hl). exists (a ++ x). rewrite <- app_assoc, <- Hx.
+  split; [exact Ha|]. rewrite app_length. lia.
 Qed.
 
 (* ------------------------------------------------------------------ XER *)
